@@ -66,7 +66,7 @@ def run(ck, facts):
     ck.units.append("diplomat_runtime.lib (MIR)")
     ck.rule("R1", "every raw-parts reconstruction takes (x.ptr, x.len) of one view and is reachable only through the non-null edge of `x.ptr.is_null()`; the null edge builds the empty slice (aligned dangling pointer for owned boxes)")
     ck.rule("R2", "views are built field-wise from one source: ptr <- as_ptr/as_mut_ptr/into_raw(x), len <- len(x)")
-    ck.rule("R3", "diplomat_is_str = is_ok(from_utf8(from_raw_parts(ptr,size))) with no other branch or call; from_utf8_unchecked* only on bytes of a Utf8 view")
+    ck.rule("R3", "diplomat_is_str returns true for NULL and is_ok(from_utf8(from_raw_parts(ptr,size))) otherwise, with no other decision or callee; from_utf8_unchecked* only on bytes of a Utf8 view")
     ck.rule("R4", "diplomat_alloc / diplomat_free build the Layout from (size, align) in the same order")
     ck.rule("R6", "view types are repr(C) {ptr,len} / repr(transparent) with private fields")
     ck.not_decided += ["core::str::from_utf8 itself (trusted)", "contents round trip for all lengths (behaviour; follows from R1/R2 and rustc's slice semantics)"]
@@ -185,19 +185,49 @@ def run(ck, facts):
     # --- R3
     f = rt.fn("diplomat_runtime::diplomat_is_str")
     m = MirFn(f)
+    where = C.loc(f)
+    is_arg1 = lambda s_: sym_is_arg(s_, 1)
+    raw_bbs = [bb for bb, t in m.calls() if RAW_RE.search(C.mir_callee(t) or "")]
+    # (a) the reconstruction is only reached with a non-null pointer (NULL+0 is what an empty foreign view looks like)
+    for bb in raw_bbs:
+        ck.expect(guarded_by(m, bb, is_arg1, want_null=False), "R1", "diplomat_runtime::diplomat_is_str/null-guard", "from_raw_parts(ptr, size) only behind the non-null edge of ptr.is_null()",
+                  "diplomat_is_str hands `ptr` to slice::from_raw_parts without a `ptr.is_null()` guard: NULL+0 (e.g. a default-constructed string_view) is undefined behaviour / aborts in debug builds", where)
+    # (b) values returned: `true` on the null edge, is_ok(from_utf8(from_raw_parts(ptr,size))) on the other; nothing else
+    defs0 = m.defs.get(0, [])
+    ok_shape = bool(defs0) and len(raw_bbs) == 1
+    kinds = []
+    for dbb, kind, node in defs0:
+        if kind == "assign":
+            v = sym_strip(m.sym_rv(node["rv"]))
+            is_true = isinstance(v, tuple) and v[0] == "const" and str(v[1]).strip().lower() in ("true", "const true", "1")
+            on_null = guarded_by(m, dbb, is_arg1, want_null=True)
+            kinds.append("const-true@null" if (is_true and on_null) else "other-assign:%s" % sym_show(v))
+            ok_shape &= is_true and on_null
+        else:
+            v = ("call", C.mir_callee(node), tuple(m.sym_op(z) for z in node["args"]))
+            good = str(v[1]).endswith("result::Result::is_ok")
+            inner = sym_peel(v[2][0]) if good else None
+            good = good and isinstance(inner, tuple) and inner[0] == "call" and str(inner[1]).endswith("core::str::converts::from_utf8")
+            inner2 = sym_peel(inner[2][0]) if good else None
+            good = good and isinstance(inner2, tuple) and inner2[0] == "call" and str(inner2[1]).endswith("slice::raw::from_raw_parts") \
+                and sym_is_arg(inner2[2][0], 1) and sym_is_arg(inner2[2][1], 2)
+            kinds.append("validator" if good else "other-call:%s" % sym_show(v)[:80])
+            ok_shape &= good
+    ok_shape &= kinds.count("validator") == 1
+    # (c) no decision other than the null test on the validating path, no other callee anywhere
+    ns = null_switches(m)
+    stray = []
+    for b, blk in m.cfg.blocks.items():
+        if blk.get("cleanup") or blk["term"]["k"] != "switch" or b in ns:
+            continue
+        if not guarded_by(m, b, is_arg1, want_null=True):
+            stray.append(b)
     calls = [(C.mir_callee(t) or "indirect") for _, t in m.calls()]
-    switches = [b for b, blk in m.cfg.blocks.items() if not blk.get("cleanup") and blk["term"]["k"] in ("switch",)]
-    ret = None
-    for r in m.cfg.returns():
-        ret = m.sym_local(0)
-    shape_ok = (isinstance(ret, tuple) and ret[0] == "call" and str(ret[1]).endswith("result::Result::is_ok"))
-    inner = sym_peel(ret[2][0]) if shape_ok else None
-    shape_ok = shape_ok and isinstance(inner, tuple) and inner[0] == "call" and str(inner[1]).endswith("core::str::converts::from_utf8")
-    inner2 = sym_peel(inner[2][0]) if shape_ok else None
-    shape_ok = shape_ok and isinstance(inner2, tuple) and inner2[0] == "call" and str(inner2[1]).endswith("slice::raw::from_raw_parts") \
-        and sym_is_arg(inner2[2][0], 1) and sym_is_arg(inner2[2][1], 2)
-    ck.expect(shape_ok and not switches and len(calls) == 3, "R3", "diplomat_is_str/exact",
-              "is_ok(from_utf8(from_raw_parts(ptr,size)))", "diplomat_is_str is %s with %d branches and calls %s: not the unmodified core validator" % (sym_show(ret), len(switches), [c.split("::")[-1] for c in calls]), C.loc(f))
+    allowed = re.compile(r"(::is_null|slice::raw::from_raw_parts|str::converts::from_utf8|result::Result::is_ok|core::panicking::\w+)$")
+    extra = [c for c in calls if not allowed.search(c)]
+    ck.expect(ok_shape and not stray and not extra, "R3", "diplomat_is_str/exact",
+              "true for NULL, else is_ok(from_utf8(from_raw_parts(ptr,size)))",
+              "diplomat_is_str returns %s, with %d extra decisions on the validating path and extra calls %s: not the unmodified core validator" % (kinds, len(stray), [c.split("::")[-1] for c in extra]), where)
     n_unchecked = 0
     for f in rt.fn_list:
         mir = f.get("mir")
